@@ -458,7 +458,7 @@ class C19(Prop):
         ("bin/replace-star-imports", None),
     ]
     quick_cases = 800
-    thorough_cases = 20000
+    thorough_cases = 15000
     quick_deadline_s = 60
     thorough_deadline_s = 600
     rule = ("universes of generated module files in a fresh directory on sys.path (plain module, package __init__, module in a "
@@ -472,6 +472,19 @@ class C19(Prop):
                     "stdlib ast (the harness's item abstraction fed to the model and the oracle's own reading of the module)"]
     assumptions = []
     families = {}
+
+    # -- scratch ---------------------------------------------------------------------------
+    # every case directory lives under one per-run directory that teardown() removes, so that workers killed at a
+    # deadline (pool.terminate) leave nothing behind
+    _scratch = None
+
+    def setup(self, tier, rng):
+        self._scratch = tempfile.mkdtemp(prefix="c19run_")
+
+    def teardown(self):
+        if self._scratch:
+            shutil.rmtree(self._scratch, ignore_errors=True)
+            self._scratch = None
 
     # -- generation ------------------------------------------------------------------------
     # exhaustive small scope: every ordered pair of these statements as the whole target module, as a plain
@@ -586,7 +599,7 @@ class C19(Prop):
         from pyflyby._modules import ModuleHandle
         from pyflyby._imports2s import replace_star_imports
         tops = _universe_tops(case)
-        root = tempfile.mkdtemp(prefix="c19_")
+        root = tempfile.mkdtemp(prefix="c19_", dir=self._scratch if self._scratch and os.path.isdir(self._scratch) else None)
         obs = {"exports": {}}
         try:
             _write_universe(root, case)
@@ -872,6 +885,11 @@ class C19(Prop):
             try:
                 items = abstract_items(case["files"][rel])
             except SyntaxError:
+                continue
+            if isinstance(obs["exports"].get(t), dict) and not obs["cpy"]["targets"].get(t, {}).get("import_ok") \
+                    and obs["exports"][t].get("err") in ("ErrorDuringImportError", "ImportError", "ModuleNotFoundError"):
+                # the module (or a parent package) cannot even be located/imported: locating the file is an
+                # input of the model (`Inspect.fail`), not something it computes
                 continue
             ex_mods = mods
             if is_init and not obs["cpy"]["targets"].get(t, {}).get("import_ok"):
